@@ -640,9 +640,22 @@ func (e *exec) doEnd(ci int, how string) {
 			}
 		})
 		c.Stall()
-		c.SendAsync(append(bytes.Repeat([]byte{0xC0, 0}, 3), 0xE0, 0))
+		wrote := make(chan error, 1)
+		go func() { wrote <- c.SendRawTimeout(append(bytes.Repeat([]byte{0xC0, 0}, 3), 0xE0, 0), 5*time.Second) }()
 		for i := 0; i < 4000 && !trapped.Load(); i++ {
 			time.Sleep(250 * time.Microsecond)
+		}
+		// the broker has taken the whole write (with a transport that hands the bytes over in
+		// pieces the DISCONNECT may still be on its way when the processor reaches its third
+		// answer: closing now would cut it off, and the will would be due)
+		if err := <-wrote; err != nil {
+			close(release)
+			fix.SetYield(nil)
+			c.Close()
+			c.WaitTeardown(wire.DefaultWait)
+			e.inconcl = "requests-disconnect-close: the broker did not take the client's last write"
+			e.abort = true
+			return
 		}
 		c.Close()
 		if trapped.Load() {
